@@ -116,9 +116,11 @@ def gen_scenarios(ctx, tier, bits=None, reduced=False):
                     yield "cmp-signed", M(k, (rhs, s_))
             yield "select", M("select", (M(k, (a, b)), a, b))
             yield "select", M("select", (M(k, (a, K(0))), K(1), K(2)))
-        for v in [0, 1, -1, 2, 4.0, -1.5, 0.0, 0.25, 9.0, 0.1, 3]:
-            for u in UN + ["log", "log1p"]:
+        for v in [0, 1, -1, 2, 4.0, -1.5, 0.0, 0.25, 9.0, 0.1, 3, "largest", "eps", "pi", "nan", "undefined", "posinf", "smallest_subnormal"]:
+            for u in UN + ["log", "log1p", "log2", "log10", "conjugate"]:
                 yield "const-unary", M(u, (K(v),))
+            if isinstance(v, str):
+                continue
             for w in [0, 1, -1, 2, 3, 0.1, 0.0]:
                 for k in BIN:
                     yield "const-binary", M(k, (K(v), K(w)))
@@ -190,6 +192,12 @@ def gen_scenarios(ctx, tier, bits=None, reduced=False):
         yield "misc", t
     # constants through every unary / binary rule (constant folding in the untyped float model)
     cvals = [0, 1, -1, 2, 4.0, -1.5, 0.0, 0.25, 9.0, True, False]
+    for nm in named + ["pi", "nan", "undefined"]:
+        for u in UN + ["log", "log1p", "log2", "log10", "conjugate"]:
+            yield "const-unary", M(u, (K(nm),))
+        for k in BIN:
+            yield "const-binary", M(k, (K(nm), K(2)))
+            yield "const-binary", M(k, (a, K(nm)))
     for v in cvals:
         for u in UN + ["log", "log1p", "log2", "log10", "conjugate"]:
             if isinstance(v, bool) and u != "logical_not":
